@@ -14,6 +14,7 @@
 #include <fcppt/parse/char.hpp>
 #include <fcppt/parse/char_set.hpp>
 #include <fcppt/parse/int.hpp>
+#include <fcppt/parse/list.hpp>
 #include <fcppt/parse/literal.hpp>
 #include <fcppt/parse/make_lexeme.hpp>
 #include <fcppt/parse/result_of.hpp>
@@ -342,3 +343,76 @@ VERIF_HARNESS(h_k03b)
 //@harness h_k0{K} for K in 1,2 param n=3..3 tier=thorough loop=24 paths=200000 wall=2400
 //@harness h_k0{K} for K in 3,4,5,6,7 param n=2..2 tier=thorough loop=24
 //@harness h_k0{K}a for K in 1,2,3,4,5,6,7 param n=4..4 tier=thorough loop=24 paths=200000 wall=2400
+
+// ---------------------------------------------------------------------------------------------------------------------
+// Repetition-like parsers with a skipper that CAN FAIL (skipper::literal{' '}, skipper::char_set{' '}, a sequence of two):
+// one iteration is "element, then skipper"; when the skipper fails the iteration fails and the input is rewound to the
+// end of the last COMPLETE iteration.  `*char_set{'a','b'}` on " a b" under skipper::literal{' '} yields "a" and leaves
+// "b".  Bytes symbolic over {a, b, ' '} (list: plus ','), the lexeme'd rest shows the position.
+namespace
+{
+void abs_alphabet(input const &in)
+{
+  for (unsigned i = 0; i < in.n; ++i)
+    verif_assume(in.b[i] == 'a' || in.b[i] == 'b' || in.b[i] == ' ');
+}
+void abs_comma_alphabet(input const &in)
+{
+  for (unsigned i = 0; i < in.n; ++i)
+    verif_assume(in.b[i] == 'a' || in.b[i] == 'b' || in.b[i] == ' ' || in.b[i] == ',');
+}
+constexpr node g_rep_ab[] = {REP(1), SET("ab"), /*2 skipper ' '*/ LIT(' '), /*3 skipper set*/ SET(" "), /*4 skipper ' ' ' '*/ SEQ(2, 2)};
+}
+// (no trailing parser: a sequence would run the failing skipper once more and turn every interesting case into a
+// failure; the position after the success is compared by check())
+VERIF_HARNESS(h_t01)
+{
+  auto const parser{*p::char_set{'a', 'b'}};
+  check(parser, p::skipper::literal{' '}, g_rep_ab, 0, 2, len(), &abs_alphabet);
+}
+VERIF_HARNESS(h_t02)
+{
+  auto const parser{*p::char_set{'a', 'b'}};
+  check(parser, p::skipper::char_set{' '}, g_rep_ab, 0, 3, len(), &abs_alphabet);
+}
+VERIF_HARNESS(h_t03)
+{
+  auto const parser{*p::char_set{'a', 'b'}};
+  check(parser, p::skipper::literal{' '} >> p::skipper::literal{' '}, g_rep_ab, 0, 4, len(), &abs_alphabet);
+}
+VERIF_HARNESS(h_t04)
+{
+  static constexpr node g[] = {PLUS(1), SET("ab"), /*2 skipper*/ LIT(' ')};
+  auto const parser{+p::char_set{'a', 'b'}};
+  check(parser, p::skipper::literal{' '}, g, 0, 2, len(), &abs_alphabet);
+}
+VERIF_HARNESS(h_t05)
+{
+  static constexpr node g[] = {SEP(1, 2), SET("a"), LIT('b'), /*3 skipper*/ LIT(' ')};
+  auto const parser{p::separator{p::char_set{'a'}, p::literal{'b'}}};
+  check(parser, p::skipper::literal{' '}, g, 0, 3, len(), &abs_alphabet);
+}
+VERIF_HARNESS(h_t06)
+{
+  static constexpr node g[] = {LIST(1, 2, 3, 4), LIT('b'), SET("a"), LIT(','), LIT('b'), /*5 skipper*/ LIT(' ')};
+  auto const parser{p::list{p::literal{'b'}, p::char_set{'a'}, p::literal{','}, p::literal{'b'}}};
+  check(parser, p::skipper::literal{' '}, g, 0, 5, len(), &abs_comma_alphabet);
+}
+// the documented example, closed form: " a b" -> "a", rest "b"
+VERIF_HARNESS(h_t00)
+{
+  input in;
+  fresh_input(in, 4);
+  verif_assume(in.b[0] == ' ' && in.b[1] == 'a' && in.b[2] == ' ' && in.b[3] == 'b');
+  arr_stream s{in.b, 4};
+  auto const parser{*p::char_set{'a', 'b'}};
+  auto const r{p::phrase_parse(parser, s, p::skipper::literal{' '})};
+  verif_assert(r.has_success(), "repetition never fails");
+  verif_assert(r.get_success_unsafe() == std::string{"a"}, "only the complete iteration (a + blank) counts");
+  verif_out("pos", s.pos());
+  verif_assert(s.pos() == 3, "the stream is rewound to the end of the last complete iteration: b is unread");
+  verif_reach("end");
+}
+//@harness h_t00 tier=quick loop=24
+//@harness h_t0{K} for K in 1,2,3,4,5,6 param n=0..4 tier=quick loop=24
+//@harness h_t0{K} for K in 1,2,3,4,5 param n=5..5 tier=thorough loop=24
